@@ -24,7 +24,7 @@ COMPONENTS = {"real": "whole IPhreeqc library from /repo's working tree (ASan+UB
 ASSUMPTIONS = ["content id = RAW block without header, comments and 'workspace variables' sections",
                "the model knows the engine's intra-simulation order only to the extent that one operation is one simulation"]
 REACH_PROBES = ["ops", "calls_checked", "range_ops", "copy_ops", "delete_ops", "modify_ops", "save_ops", "run_cells_ops", "explicit_use_save_compared", "components_checked"]
-tiers = {"quick": dict(runs=4000, budget_s=150, workers=16), "thorough": dict(runs=100000, budget_s=1700, workers=16)}
+tiers = {"quick": dict(runs=10000, budget_s=150, workers=16), "thorough": dict(runs=100000, budget_s=1700, workers=16)}
 
 KINDS = ["solution", "equilibrium_phases", "exchange", "surface", "solid_solutions", "gas_phase", "kinetics", "mix", "reaction", "reaction_temperature", "reaction_pressure"]
 CELL_KINDS = ["solution", "equilibrium_phases", "exchange", "surface", "solid_solutions", "gas_phase", "kinetics", "mix", "reaction", "reaction_temperature", "reaction_pressure"]
